@@ -43,6 +43,7 @@ func main() {
 	dump := flag.Bool("dump", false, "print every obligation")
 	list := flag.Bool("list", false, "list rules")
 	selftestVariant := flag.String("selftest-variant", "", "internal: run one seeded variant (json) and print the verdict")
+	dumpKnown := flag.Bool("dump-known-funcs", false, "maintenance: print the function table of the tree (known_funcs.txt)")
 	selftestOne := flag.String("selftest-one", "", "debugging: run the named self-test variant of -property and print the child's result")
 	flag.StringVar(&repoRoot, "repo", envOr("SG_REPO", "/repo"), "repository root")
 	flag.StringVar(&verifRoot, "verif", envOr("SG_VERIF", "/verif"), "verif root")
@@ -53,6 +54,10 @@ func main() {
 		for _, r := range allRules {
 			fmt.Printf("%-34s %-22s floor=%d\n", r.ID, strings.Join(r.Props, ","), r.Floor)
 		}
+		return
+	}
+	if *dumpKnown {
+		dumpKnownFuncs(repoRoot)
 		return
 	}
 	if *selftestOne != "" {
